@@ -149,6 +149,16 @@ func (s *Span) tid16() string {
 	}
 	return string(b)
 }
+
+// unhexPad: the bytes of the number a hex string of any length <= width denotes, left-padded with zeros (Zipkin
+// ids are hex strings; the writer accepts short ones by left-padding).
+func unhexPad(h string, width int) string {
+	if len(h) < width {
+		h = strings.Repeat("0", width-len(h)) + h
+	}
+	return unhex(h)
+}
+
 func unhex(h string) string {
 	b, err := hex.DecodeString(h)
 	if err != nil {
